@@ -142,7 +142,7 @@ func checkC14() *rtCheck {
 		Assume: []string{"the deciding schema evaluator is the lab's own (independent of goa); kin-openapi mis-parses integer enums in parameters and 64-bit integers, so it only cross-checks",
 			"array headers are judged under both readings (comma split and one value per line)",
 			"JSON bodies only; authorization is not a schema matter"},
-		Profiles: validationProfiles, Specs: [2]int{32, 500}, PerMethod: [2]int{30, 140},
+		Profiles: []string{"validation", "errors", "http-loc", "validation", "mixed", "errors"}, Specs: [2]int{32, 500}, PerMethod: [2]int{30, 140},
 		MkCases: func(sp *spec.Spec, sv *spec.Service, m *spec.Method, r *vc.Rand, n, start int) []*rt.Case {
 			cs := cases.Validation(sp, sv, m, r, n, start)
 			for _, e := range cases.Errors(sp, sv, m, r.Fork(77), 0, start+len(cs)) {
